@@ -1033,6 +1033,221 @@ Proof.
   cbn [app] in HS. destruct HS as (H1 & H2 & H3 & H4 & H5 & H6 & H7 & H8 & H9). exists s. repeat split; auto.
 Qed.
 
+(* ------------------------------------------------------------------ Part 2b: after Close *)
+
+Lemma lookup_asg : forall asg late k c, nth_error asg (N.to_nat k) = Some c -> lookup asg late k = Some c.
+Proof.
+  intros asg late k c H. unfold lookup. pose proof (nth_some_lt _ _ _ _ H) as Hlt.
+  destruct (N.ltb_spec k (N.of_nat (length asg))); [exact H | lia].
+Qed.
+
+Lemma lookup_fresh : forall asg late k c, lookup asg late k = None -> lookup asg ((k, c) :: late) k = Some c.
+Proof.
+  intros asg late k c H. unfold lookup in *. destruct (N.ltb_spec k (N.of_nat (length asg))) as [Hlt | Hge].
+  - destruct (nth_error asg (N.to_nat k)) eqn:E; [discriminate|]. apply nth_error_None in E. lia.
+  - cbn [assoc]. rewrite N.eqb_refl. reflexivity.
+Qed.
+
+Lemma lookup_keep : forall asg late k c k0 c0, lookup asg late k = None -> lookup asg late k0 = Some c0 ->
+  lookup asg ((k, c) :: late) k0 = Some c0.
+Proof.
+  intros asg late k c k0 c0 Hn Hs. unfold lookup in *. destruct (N.ltb_spec k0 (N.of_nat (length asg))); [exact Hs|].
+  cbn [assoc]. destruct (N.eqb_spec k k0) as [-> | Hne]; [|exact Hs].
+  destruct (N.ltb_spec k0 (N.of_nat (length asg))); [lia|]. congruence.
+Qed.
+
+Definition LInv (a : ast) (post : list event) (l : lst) : Prop :=
+  forall X g, In g (emitted X post) -> is_seq X (g_ty g) = true ->
+              lookup (e_asg (getE X a)) (getL X l) (g_seq g) = Some (cont g).
+
+Lemma getL_setL_same : forall X v l, getL X (setL X v l) = v.
+Proof. destruct X; reflexivity. Qed.
+Lemma getL_setL_other : forall X v l, getL (negb X) (setL X v l) = getL (negb X) l.
+Proof. destruct X; reflexivity. Qed.
+
+Lemma late_step_inv : forall a post l e l', LInv a post l -> late_step a l e = Some l' -> LInv a (post ++ [e]) l'.
+Proof.
+  intros a post l e l' HI H.
+  assert (Hframe : forall e0, (forall Y, ev_emit Y e0 = []) -> LInv a (post ++ [e0]) l).
+  { intros e0 He Y g Hg. rewrite emitted_snoc_other in Hg by apply He. apply HI. exact Hg. }
+  destruct e as [S b | S g | S k | S b | ]; cbn [late_step] in H;
+    try (injection H as <-; apply Hframe; intros Y; reflexivity).
+  destruct (is_seq S (g_ty g)) eqn:Hseq.
+  - destruct (lookup (e_asg (getE S a)) (getL S l) (g_seq g)) as [c|] eqn:Hl.
+    + destruct (content_eqb c (cont g)) eqn:Hc; [|discriminate]. apply content_eqb_eq in Hc. subst c. injection H as <-.
+      intros Y g0 Hg0 Hs0. destruct (side_cases Y S) as [-> | ->].
+      * rewrite snd_emit_common in Hg0. apply in_app_or in Hg0. destruct Hg0 as [Hg0 | [<- | []]]; [apply HI; assumption | exact Hl].
+      * rewrite emitted_snoc_other in Hg0 by (cbn; rewrite eqb_negb; reflexivity). apply HI; assumption.
+    + injection H as <-. intros Y g0 Hg0 Hs0. destruct (side_cases Y S) as [-> | ->].
+      * rewrite getL_setL_same. rewrite snd_emit_common in Hg0. apply in_app_or in Hg0. destruct Hg0 as [Hg0 | [<- | []]].
+        -- eapply lookup_keep; [exact Hl | apply HI; assumption].
+        -- apply lookup_fresh. exact Hl.
+      * rewrite getL_setL_other. rewrite emitted_snoc_other in Hg0 by (cbn; rewrite eqb_negb; reflexivity). apply HI; assumption.
+  - destruct (is_ack S (g_ty g)); [|discriminate]. injection H as <-.
+    intros Y g0 Hg0 Hs0. destruct (side_cases Y S) as [-> | ->].
+    + rewrite snd_emit_common in Hg0. apply in_app_or in Hg0. destruct Hg0 as [Hg0 | [<- | []]]; [apply HI; assumption | congruence].
+    + rewrite emitted_snoc_other in Hg0 by (cbn; rewrite eqb_negb; reflexivity). apply HI; assumption.
+Qed.
+
+Lemma late_run_inv : forall a post2 post1 l l', LInv a post1 l -> late_run a l post2 = Some l' -> LInv a (post1 ++ post2) l'.
+Proof.
+  intros a. induction post2 as [|e t IH]; intros post1 l l' HI H; cbn [late_run] in H.
+  - injection H as <-. rewrite app_nil_r. exact HI.
+  - destruct (late_step a l e) as [l1|] eqn:E; [|discriminate].
+    replace (post1 ++ e :: t) with ((post1 ++ [e]) ++ t) by (rewrite <- app_assoc; reflexivity).
+    eapply IH; [|exact H]. eapply late_step_inv; eauto.
+Qed.
+
+(* one sequence number, one content - for every sequenced segment (data and control), before and after Close *)
+Lemma accept_closed_retx_same : forall pre post, accept_closed pre post = true ->
+  forall X g1 g2, In g1 (emitted X (pre ++ post)) -> In g2 (emitted X (pre ++ post)) ->
+  is_seq X (g_ty g1) = true -> is_seq X (g_ty g2) = true -> g_seq g1 = g_seq g2 ->
+  g_ty g1 = g_ty g2 /\ g_frag g1 = g_frag g2 /\ g_pay g1 = g_pay g2.
+Proof.
+  intros pre post H X g1 g2 H1 H2 Q1 Q2 E. unfold accept_closed in H.
+  destruct (accept pre) as [a | r] eqn:Ea; [|discriminate].
+  destruct (late_run a l0 post) as [l|] eqn:El; [|discriminate].
+  assert (HL : LInv a post l).
+  { apply (late_run_inv a post [] l0 l); [|exact El]. intros Y g Hg. contradiction. }
+  apply accept_inv in Ea. destruct Ea as [_ HS]. destruct (HS X) as [(_ & _ & S3 & _) _].
+  assert (Hb : forall g, In g (emitted X (pre ++ post)) -> is_seq X (g_ty g) = true ->
+                         lookup (e_asg (getE X a)) (getL X l) (g_seq g) = Some (cont g)).
+  { intros g Hg Hs. rewrite emitted_app in Hg. apply in_app_or in Hg. destruct Hg as [Hg | Hg].
+    - apply lookup_asg. apply S3; assumption.
+    - apply HL; assumption. }
+  pose proof (Hb _ H1 Q1) as N1. pose proof (Hb _ H2 Q2) as N2. rewrite E in N1. rewrite N1 in N2.
+  unfold cont in N2. injection N2 as -> -> ->. auto.
+Qed.
+
+(* C13 for the LTS, spelled out for control segments: the close session request (like every sequenced segment)
+   gets its number in the step that queues it - number = length of the history, never a number in use - and
+   every transmission of that number carries it *)
+Lemma close_request_numbering : forall s c s', reach s -> lstep s (LWrite c) s' ->
+  nth_error (assigned s') (length (assigned s)) = Some c /\
+  nth_error (assigned s) (length (assigned s)) = None /\
+  (forall i c0, In (i, c0) (fwd s') -> i < length (assigned s)) /\
+  (forall s2 c2, reach s2 -> nth_error (assigned s2) (length (assigned s)) = Some c ->
+                 In (length (assigned s), c2) (fwd s2) -> c2 = c).
+Proof.
+  intros s c s' HR H. pose proof (reach_inv _ HR) as (_ & I2 & I3 & _).
+  destruct (seq_gapless _ HR) as (_ & _ & _ & G). destruct (G _ _ H) as (_ & _ & Gw). destruct (Gw c eq_refl) as [Gn _].
+  split; [exact Gn|]. split; [apply nth_error_None; lia|]. split.
+  - inversion H; subst. cbn. intros i c0 Hin. apply I3 in Hin. lia.
+  - intros s2 c2 HR2 Hn Hin. pose proof (reach_inv _ HR2) as (_ & _ & J3 & _). apply J3 in Hin. destruct Hin as [Hin _].
+    rewrite Hn in Hin. injection Hin as ->. reflexivity.
+Qed.
+
+(* ------------------------------------------------------------------ Part 1b: windows *)
+
+Definition WInv (s : wst) : Prop :=
+  reach (base s) /\ win (base s) = swin (base s) (cwnd s) (rwnd s) /\ minWindow <= cwnd s /\
+  (forall u w, In (u, w) (backw s) -> exists g, In (u, g) (back (base s))).
+
+Lemma minWindow_pos : 0 < minWindow.
+Proof. unfold minWindow, C02_minWindowSize. cbn. lia. Qed.
+
+Lemma set_win_step : forall b v, lstep b (LSetWin v) (set_win b v).
+Proof. intros. apply s_setwin. Qed.
+
+Lemma lstep_back : forall s l s', lstep s l s' -> is_sendack l = false -> back s' = back s.
+Proof. intros s l s' H F. destruct H; proj; try reflexivity. discriminate. Qed.
+
+Lemma winv_init : forall cw rw rs, minWindow <= cw -> WInv (winit cw rw rs).
+Proof.
+  intros. unfold WInv, winit. cbn. split; [apply reach_init|]. split; [unfold swin; cbn; f_equal; lia|].
+  split; [assumption | intros; contradiction].
+Qed.
+
+Lemma wstep_inv : forall s l s', WInv s -> wstep s l s' -> WInv s'.
+Proof.
+  intros s l s' (HR & HW & HC & HB) H. destruct H; unfold WInv; cbn [base cwnd rwnd rspace backw].
+  - split; [eapply reach_step; [eapply reach_step; [exact HR | exact H] | apply set_win_step]|].
+    split; [reflexivity|]. split; [exact HC|]. cbn. rewrite (lstep_back _ _ _ H H1). exact HB.
+  - split; [eapply reach_step; [exact HR | apply set_win_step]|]. split; [reflexivity|]. split; [assumption | exact HB].
+  - repeat split; assumption.
+  - inversion H; subst. cbn. split; [eapply reach_step; [exact HR | exact H]|].
+    split; [exact HW|]. split; [exact HC|].
+    intros u0 w0 [E | Hin]; [injection E as <- <-; eexists; left; reflexivity|].
+    destruct (HB _ _ Hin) as [g Hg]. exists g. right. exact Hg.
+  - split; [eapply reach_step; [eapply reach_step; [exact HR | exact H0] | apply set_win_step]|].
+    split; [reflexivity|]. split; [exact HC|]. cbn. rewrite (lstep_back _ _ _ H0 eq_refl). exact HB.
+Qed.
+
+Lemma wreach_inv : forall s, wreach s -> WInv s.
+Proof. intros s H. induction H; [apply winv_init; assumption | eapply wstep_inv; eauto]. Qed.
+
+(* every theorem of Part 1 applies to the base of a reachable windowed state *)
+Lemma wreach_base : forall s, wreach s -> reach (base s) /\ win (base s) = swin (base s) (cwnd s) (rwnd s).
+Proof. intros s H. apply wreach_inv in H. destruct H as (A & B & _). auto. Qed.
+
+Inductive wrun : wst -> list wlabel -> wst -> Prop :=
+| wrun_nil : forall s, wrun s [] s
+| wrun_cons : forall s l s1 ls s2, wstep s l s1 -> wrun s1 ls s2 -> wrun s (l :: ls) s2.
+
+Lemma wrun_app : forall s l1 s1 l2 s2, wrun s l1 s1 -> wrun s1 l2 s2 -> wrun s (l1 ++ l2) s2.
+Proof. intros s l1 s1 l2 s2 H. induction H; intros H2; [exact H2|]. cbn. econstructor; eauto. Qed.
+
+(* the window-reopening ack: at any time the receiver may emit an ack carrying its current window (heartbeat or
+   ack on data), and when the sender processes it - whatever its ack number - the sender's view of the window
+   is the receiver's free space; with nothing in flight the send window is then min(cwnd, free space) *)
+Lemma window_reopen_enabled : forall s, wreach s ->
+  exists s1 s2,
+    wstep s (WSendAck (next_recv (base s))) s1 /\ wstep s1 (WRecvAck (next_recv (base s)) (rspace s)) s2 /\
+    rwnd s2 = rspace s /\ cwnd s2 = cwnd s /\ rspace s2 = rspace s /\
+    assigned (base s2) = assigned (base s) /\ next_recv (base s2) = next_recv (base s) /\ sent_hi (base s2) = sent_hi (base s) /\
+    (next_recv (base s) = sent_hi (base s) -> win (base s2) = Nat.min (cwnd s) (rspace s)) /\
+    (next_recv (base s) = sent_hi (base s) -> 0 < rspace s -> 0 < win (base s2)).
+Proof.
+  intros s HW. pose proof (wreach_inv _ HW) as (HR & _ & HC & _).
+  pose proof (reach_inv _ HR) as (I1 & _).
+  eexists. eexists. split; [apply ws_sendack; apply s_sendack; lia|].
+  split. { apply ws_recvack; cbn; [left; reflexivity|]. eapply s_recvack. cbn. left. reflexivity. }
+  cbn. repeat split; try reflexivity.
+  - intros E. unfold swin. cbn. rewrite E. replace (sent_hi (base s) - Nat.max (una (base s)) (Nat.min (sent_hi (base s)) (sent_hi (base s)))) with 0 by lia.
+    rewrite Nat.sub_0_r. reflexivity.
+  - intros E Hs. unfold swin. cbn. rewrite E. pose proof minWindow_pos. lia.
+Qed.
+
+(* progress without the window hypothesis: with undelivered data and free space at the receiver, at most five
+   steps - the receiver's ack, its delivery, a transmission of the awaited segment, its delivery, the move -
+   advance the receiver.  Fairness assumption on acks: one of the acks the receiver keeps emitting (on data and
+   every heartbeat interval) is delivered. *)
+Lemma progress_by_ack : forall s, wreach s -> next_recv (base s) < length (assigned (base s)) -> 0 < rspace s ->
+  exists ls s', wrun s ls s' /\ length ls <= 5 /\ next_recv (base s') = S (next_recv (base s)).
+Proof.
+  intros s HW Hund Hsp. pose proof (wreach_inv _ HW) as (HR & _ & _ & _).
+  pose proof (reach_inv _ HR) as (I1 & I2 & _ & _ & _ & I6 & _ & I8 & _).
+  destruct (no_premature_discard _ HR) as [_ Hc]. destruct (Hc Hund) as (c & Hn & _).
+  assert (Hdeliver : forall t, wreach t -> next_recv (base t) = next_recv (base s) -> assigned (base t) = assigned (base s) ->
+            (next_recv (base t) < sent_hi (base t) \/ (next_recv (base t) = sent_hi (base t) /\ 0 < win (base t))) ->
+            una (base t) <= next_recv (base t) ->
+            exists ls t', wrun t ls t' /\ length ls = 3 /\ next_recv (base t') = S (next_recv (base s))).
+  { intros t HT En Ea Hcase Hu. rewrite <- En. rewrite <- Ea in Hn. rewrite <- En in Hn.
+    destruct Hcase as [Hlt | [Heq Hw]].
+    - eexists [_; _; _]. eexists. split; [|split; [reflexivity|]].
+      + eapply wrun_cons. { apply (ws_base t (LRetx (next_recv (base t)))); [apply (s_retx _ _ c); [exact Hu | exact Hlt | exact Hn] | reflexivity | reflexivity | reflexivity]. }
+        eapply wrun_cons. { apply (ws_base _ (LRecvData (next_recv (base t)) c)); [apply s_recvdata; cbn; left; reflexivity | reflexivity | reflexivity | reflexivity]. }
+        eapply wrun_cons. { apply (ws_base _ LMove); [apply (s_move _ c); cbn; left; reflexivity | reflexivity | reflexivity | reflexivity]. }
+        apply wrun_nil.
+      + reflexivity.
+    - eexists [_; _; _]. eexists. split; [|split; [reflexivity|]].
+      + eapply wrun_cons. { apply (ws_base t (LSendNew (sent_hi (base t)))); [apply (s_sendnew _ c); [rewrite <- Heq; exact Hn | exact Hw] | reflexivity | reflexivity | reflexivity]. }
+        eapply wrun_cons. { apply (ws_base _ (LRecvData (next_recv (base t)) c)); [apply s_recvdata; cbn; left; rewrite Heq; reflexivity | reflexivity | reflexivity | reflexivity]. }
+        eapply wrun_cons. { apply (ws_base _ LMove); [apply (s_move _ c); cbn; left; reflexivity | reflexivity | reflexivity | reflexivity]. }
+        apply wrun_nil.
+      + reflexivity. }
+  destruct (Nat.lt_ge_cases (next_recv (base s)) (sent_hi (base s))) as [Hlt | Hge].
+  - destruct (Hdeliver s HW eq_refl eq_refl (or_introl Hlt) I8) as (ls & t' & R & L & N).
+    exists ls, t'. split; [exact R|]. split; [lia | exact N].
+  - assert (E : next_recv (base s) = sent_hi (base s)) by lia.
+    destruct (window_reopen_enabled s HW) as (s1 & s2 & W1 & W2 & _ & _ & _ & A1 & A2 & A3 & _ & A5).
+    assert (HW2 : wreach s2) by (eapply wreach_step; [eapply wreach_step; [exact HW | exact W1] | exact W2]).
+    pose proof (wreach_inv _ HW2) as (HR2 & _). pose proof (reach_inv _ HR2) as (_ & _ & _ & _ & _ & _ & _ & J8 & _).
+    destruct (Hdeliver s2 HW2 A2 A1) as (ls & t' & R & L & N); [right; split; [lia | apply A5; assumption] | exact J8 |].
+    exists (WSendAck (next_recv (base s)) :: WRecvAck (next_recv (base s)) (rspace s) :: ls), t'.
+    split; [econstructor; [exact W1|]; econstructor; [exact W2 | exact R]|]. split; [cbn; lia | exact N].
+Qed.
+
 (* ------------------------------------------------------------------ non-vacuity *)
 
 (* a reachable LTS state with a loss, a duplicate, reordering and a read *)
@@ -1110,3 +1325,20 @@ Lemma ex_rejects :
   accept [EW false [1;2]%N; ES false (mkDg 2 0 0 0 0 [1;3]%N)] = inr (1%N, rj_payload) /\
   accept [EW false [1;2]%N; ES false (mkDg 2 0 0 0 0 [1;2]%N); ER true 0%N; EA true [1;2;2]%N] = inr (3%N, rj_read).
 Proof. vm_compute. repeat split; reflexivity. Qed.
+
+(* after Close: the close request takes the next number; a data fragment and the close request on ONE number are rejected *)
+Definition ex_pre : list event :=
+  [ EW false [1;2;3]%N; ES false (mkDg 2 0 0 0 0 [1;2;3]%N); ER true 0%N; ES true (mkDg 3 0 0 0 0 []);
+    EW false [7]%N; ES false (mkDg 6 1 0 4096 0 [7]%N) ].
+Lemma ex_closed :
+  accept_closed ex_pre [ES false (mkDg 6 1 0 4096 0 [7]%N); ES false (mkDg 4 2 0 0 0 []); ES true (mkDg 5 1 0 0 0 []); ES true (mkDg 4 2 0 0 0 [])] = true /\
+  accept_closed ex_pre [ES false (mkDg 4 1 0 0 0 [])] = false /\
+  accept_closed ex_pre [ES false (mkDg 6 2 0 4096 0 [8]%N); ES false (mkDg 4 2 0 0 0 [])] = false.
+Proof. vm_compute. repeat split; reflexivity. Qed.
+Lemma ex_wreach : exists s, wreach s /\ next_recv (base s) < length (assigned (base s)) /\ rwnd s = 0 /\ win (base s) = 0 /\ 0 < rspace s.
+Proof.
+  eexists. split.
+  - eapply wreach_step; [apply (wreach_init 16 0 7); unfold minWindow, C02_minWindowSize; cbn; lia|].
+    apply (ws_base _ (LWrite cA)); [apply s_write | reflexivity | reflexivity | reflexivity].
+  - cbn. repeat split; lia.
+Qed.
